@@ -5,7 +5,14 @@ Decided clause:
        function the dispatch slot may hold) returned 0 and (ii) the returned status is computed
        from an accumulator fed by loads of all crypto_scalarmult_curve25519_BYTES bytes of q with
        no early exit (E9: the scan loop's add-recurrence and exact trip count cover [0, 32)).
-NOT decided: RFC 7748 values, clamping arithmetic, kx cross-equality, seeded key-pair values.
+  R5.2 key-exchange session keys (E1 + sibling cross-check on crypto_kx_{client,server}_session_keys):
+       for every combination of NULL / non-NULL (rx, tx) the function either fails (the X25519 status
+       was non-zero, nothing written) or: hashes exactly (q, client_pk, server_pk) in that order into
+       a 64-byte BLAKE2b output `keys`, with q = crypto_scalarmult(own sk, peer pk); each requested
+       output buffer finally holds keys[o .. o+32) for one constant offset o (last store per index wins
+       when the two pointers were aliased); and the offsets are crossed: client rx = server tx and
+       client tx = server rx, in every mode against every mode.
+NOT decided: RFC 7748 values, clamping arithmetic, the BLAKE2b values, seeded key-pair values.
 """
 from .. import deps
 from .. import e9
@@ -26,7 +33,7 @@ def run(ctx, chk):
                        "(all slot targets enumerated) and the status depends on q; E9: LLVM scalar evolution of the scan loop shows the "
                        "loads through q are {q,+,1} with exact trip count 32 = crypto_scalarmult_curve25519_BYTES, i.e. every output "
                        "byte feeds the zero test and there is no early exit.")
-    chk.not_decided = ("RFC 7748 outputs, clamping, that both sides of box/kx derive equal secrets and seeded key generation values "
+    chk.not_decided = ("RFC 7748 outputs, clamping, the HSalsa20/HChaCha20 and BLAKE2b values and seeded key generation values "
                        "are arithmetic and not decided.")
     fn = prog.need("crypto_scalarmult_curve25519", rule="R5.1")
     nbytes = prog.K("crypto_scalarmult_curve25519_BYTES")
@@ -57,3 +64,133 @@ def run(ctx, chk):
         if p.kind == "ret" and p.ret is not None and p.ret[0] == "c":
             chk.ob("R5.1", fn, "constant returns are failures", p.ret[1] != 0, loc=fn.loc(p.end_iid), path=p if p.ret[1] == 0 else None,
                    key="R5.1 constant-success")
+
+    kx_rule(prog, chk)
+
+
+KX = {"crypto_kx_client_session_keys": {"own_sk": 3, "peer_pk": 4, "client_pk": 2, "server_pk": 4},
+      "crypto_kx_server_session_keys": {"own_sk": 3, "peer_pk": 4, "client_pk": 4, "server_pk": 2}}
+
+
+def kx_rule(prog, chk):
+    """R5.2: transcript, split and cross-equality of the session keys, per NULL-mode"""
+    C = T.C
+    nkey = prog.K("crypto_kx_SESSIONKEYBYTES")
+    offs = {}       # (function, mode, 'rx'|'tx') -> offset into keys
+    where = {}
+    nsucc = 0
+    for name, role in KX.items():
+        fn = prog.need(name, rule="R5.2")
+        RX, TX = ("arg", 0), ("arg", 1)
+        for p in cm.paths(prog, fn):
+            if p.kind != "ret":
+                continue
+            # a pointer the path never compares with NULL is used unconditionally: it was supplied
+            zrx, ztx = p.facts.zeroness(RX) or "NZ", p.facts.zeroness(TX) or "NZ"
+            mode = ("rx" if zrx == "NZ" else "") + ("+" if zrx == ztx == "NZ" else "") + ("tx" if ztx == "NZ" else "")
+            sm = [e for e in p.calls("crypto_scalarmult")]
+            wr = [e for e in p.events if e.kind == "store" and T.root(e.addr) in (RX, TX)]
+            if p.may_return_nonzero():
+                ok = not wr and (not sm or p.facts.zeroness(sm[0].res) != "Z")
+                chk.ob("R5.2", fn, "failing exit: the X25519 status was non-zero and no session key was written", ok,
+                       loc=fn.loc(p.end_iid), path=None if ok else p, key="R5.2 %s failure-exit" % name)
+                continue
+            nsucc += 1
+            # shared point: own secret key with the peer's public key, status tested
+            ok = len(sm) == 1 and sm[0].args[1] == ("arg", role["own_sk"]) and sm[0].args[2] == ("arg", role["peer_pk"]) \
+                and p.facts.zeroness(sm[0].res) == "Z" and sm[0].args[0][0] == "alloca"
+            chk.ob("R5.2", fn, "success => q = crypto_scalarmult(own secret key, peer public key) returned 0", ok,
+                   loc=fn.loc(p.end_iid), path=None if ok else p, key="R5.2 %s shared-point" % name)
+            q = sm[0].args[0] if sm else None
+            # transcript: init(outlen = 2*32, no key), update(q), update(client_pk), update(server_pk), final(keys, 64)
+            seq = [e for e in p.calls("crypto_generichash_init", "crypto_generichash_update", "crypto_generichash_final")]
+            want = [("crypto_generichash_init", None), ("crypto_generichash_update", q),
+                    ("crypto_generichash_update", ("arg", role["client_pk"])),
+                    ("crypto_generichash_update", ("arg", role["server_pk"])), ("crypto_generichash_final", None)]
+            okt = len(seq) == 5 and all(e.callee_name() == w[0] for e, w in zip(seq, want))
+            keys = None
+            if okt:
+                st = seq[0].args[0]
+                okt = all(e.args[0] == st for e in seq) and seq[0].args[1] == C(0, 64) and seq[0].args[2] == C(0, 64) \
+                    and seq[0].args[3] == C(2 * nkey, 64) \
+                    and all(seq[i].args[1] == want[i][1] and seq[i].args[2] == C(32, 64) for i in (1, 2, 3)) \
+                    and seq[4].args[2] == C(2 * nkey, 64) and seq[4].args[1][0] == "alloca" \
+                    and (not sm or sm[0].idx < seq[1].idx)
+                keys = seq[4].args[1]
+                # q must not be rewritten between the ladder and its absorption
+                if okt and q is not None:
+                    okt = not any(cm.writes_through(prog, p, e, T.root(q)) for e in p.events[sm[0].idx + 1:seq[1].idx]
+                                  if e.kind in ("store", "call"))
+            chk.ob("R5.2", fn, "keys = BLAKE2b-%d(q || client_pk || server_pk), unkeyed, in that order" % (16 * nkey), okt,
+                   loc=fn.loc(p.end_iid), path=None if okt else p, key="R5.2 %s transcript" % name)
+            if not okt:
+                continue
+            # split: which half of keys each supplied buffer finally holds
+            loads = {e.res: e for e in p.events if e.kind == "load"}
+            final = {}
+            okf = True
+            for e in wr:
+                if e.idx < seq[4].idx:
+                    okf = False
+                    continue
+                base = T.root(e.addr)
+                co, k = T.linear(e.addr)
+                ld = loads.get(e.val)
+                if ld is None or T.root(ld.addr) != keys or e.size != 1:
+                    okf = False
+                    continue
+                lco, lk = T.linear(ld.addr)
+                d1 = dict(co); d1.pop(base, None)
+                d2 = dict(lco); d2.pop(keys, None)
+                if d1 != d2 or k != 0 or len(d1) != 1:
+                    okf = False       # not "buf[i] = keys[o + i]"
+                    continue
+                (iv, sc), = d1.items()
+                fb = p.facts_before(e.idx)
+                if sc != 1 or fb.truth(T.mk_icmp("ult", iv, C(nkey, T.term_bits(iv) or 64))) is not True:
+                    # the signed loop test `i < 32` with i starting at 0 is what the sources use
+                    if fb.truth(("icmp", "slt", _strip(iv), C(nkey, 32))) is not True:
+                        okf = False
+                        continue
+                final[base] = lk      # later stores to the same index overwrite earlier ones
+            for who, a in (("rx", RX), ("tx", TX)):
+                if (p.facts.zeroness(a) or "NZ") != "NZ":
+                    continue
+                if a not in final:
+                    okf = False
+                    continue
+                offs[(name, mode, who)] = final[a]
+                where[(name, mode, who)] = (fn, fn.loc(p.end_iid))
+            chk.ob("R5.2", fn, "after the hash, every supplied buffer is filled by buf[i] = keys[o + i], i < %d" % nkey, okf,
+                   loc=fn.loc(p.end_iid), path=None if okf else p, key="R5.2 %s split-form %s" % (name, mode))
+            for o in final.values():
+                oko = o in (0, nkey)
+                chk.ob("R5.2", fn, "the halves are keys[0..%d) and keys[%d..%d)" % (nkey, nkey, 2 * nkey), oko,
+                       loc=fn.loc(p.end_iid), path=None if oko else p, key="R5.2 %s split-offset %s" % (name, mode))
+            # the hash output must not be wiped before it is copied out
+            wipes = [e for e in p.calls("sodium_memzero") if T.root(e.args[0]) == keys]
+            okw = all(w.idx > e.idx for w in wipes for e in wr)
+            chk.ob("R5.2", fn, "keys is wiped only after the copy", okw, loc=fn.loc(p.end_iid), path=None if okw else p,
+                   key="R5.2 %s wipe-order" % name)
+    chk.floor("R5.2", "successful (mode, function) paths of the kx session-key functions", nsucc, 6)
+    # cross-equality: client rx = server tx and client tx = server rx, every mode against every mode
+    cn, sn = "crypto_kx_client_session_keys", "crypto_kx_server_session_keys"
+    ncross = 0
+    for (f1, m1, w1), o1 in sorted(offs.items()):
+        if f1 != cn:
+            continue
+        for (f2, m2, w2), o2 in sorted(offs.items()):
+            if f2 != sn or w2 == w1:
+                continue
+            ncross += 1
+            fn, loc = where[(f1, m1, w1)] if m1 != "rx+tx" else where[(f2, m2, w2)]
+            chk.ob("R5.2", fn, "client %s (client asked for %s) and server %s (server asked for %s) are the same half of keys"
+                   % (w1, m1, w2, m2), o1 == o2, loc=loc, detail="client %s = keys[%d..], server %s = keys[%d..]" % (w1, o1, w2, o2),
+                   key="R5.2 cross client-%s/%s server-%s/%s" % (w1, m1, w2, m2))
+    chk.floor("R5.2", "client/server key pairs compared across modes", ncross, 8)
+
+
+def _strip(t):
+    while t[0] == "cast":
+        t = t[2]
+    return t
